@@ -5,7 +5,7 @@ from props import updgen as U
 from props import zckdlgen as ZG
 
 PROP = 'C04'
-MODULES = ['ZckModel.Props.C04', 'ZckModel.Props.C04Sound', 'ZckModel.Props.C04Req']
+MODULES = ['ZckModel.Props.C04', 'ZckModel.Props.C04Sound', 'ZckModel.Props.C04Req', 'ZckModel.Props.C04Complete']
 ASSUMPTIONS = [
     "the server holds a valid file B and answers every range request honestly (RFC 7233: one range -> plain body, several -> "
     "multipart/byteranges in request order); the old file A, when given, is a valid zchunk file",
